@@ -432,7 +432,7 @@ func (w *World) enabled() []core.WCmd {
 		// lock update is in flight
 		for _, op := range w.liveParked() {
 			if (op.Kind == "up" && op.Key == "checkpoint") || op.Kind == "lreplace" {
-				add(p.StallW*4, core.Cmd{A: "adv", N: 1001})
+				add(p.StallW*12, core.Cmd{A: "adv", N: 1001})
 				break
 			}
 		}
